@@ -254,28 +254,49 @@ let xisa_main () =
     P.printf "END %s code=%d steps=%d consumed=%d minsp=%d out=%s | MON %s\n" !fin (u32 !code) !steps
       (SL.length cons - SL.length !inp.Isa.console) !minsp (out_str (SL.rev !out)) !mon)
 
-(* ---------------------------------------------------------------- xcg: the model of xcmp's expression code generator
-   stdin lines:  size=<frame size> name=addr name=addr ... | <expression>      -> "LDAM 2; LDBC 3; ADD" or "none" (outside the fragment) *)
+(* ---------------------------------------------------------------- xcg: the model of xcmp's code generator (XCodegen*.v)
+   hvmain xcg <prog.sx>      stdin lines:  <proc> size=<frame size> <global>=<word address> ... #<constant>=<pool address> ...
+   The program goes through XConstProp.front (constant propagation + operator rewrites: what the code generator
+   reads); for the named procedure the model generates the code of the expression of its final `return e`, with
+   the procedure's frame symbols (XCodegenExpr.frame_venv), labels numbered from 0.
+   output:  "LDAM 2; BRZ L0; LDAC 0; L0:"   or "none" (outside the modelled fragment) or "front-error" *)
+let instr_str (i : XCodegenIsa.instr) : string =
+  let open XCodegenIsa in
+  match i with
+  | LDAM a -> P.sprintf "LDAM %d" (iz a) | LDBM a -> P.sprintf "LDBM %d" (iz a) | STAM a -> P.sprintf "STAM %d" (iz a)
+  | LDAC v -> P.sprintf "LDAC %d" (iz v) | LDBC v -> P.sprintf "LDBC %d" (iz v) | LDAP l -> P.sprintf "LDAP L%d" (iz l)
+  | LDAI k -> P.sprintf "LDAI %d" (iz k) | LDBI k -> P.sprintf "LDBI %d" (iz k) | STAI k -> P.sprintf "STAI %d" (iz k)
+  | BR l -> P.sprintf "BR L%d" (iz l) | BRZ l -> P.sprintf "BRZ L%d" (iz l) | BRN l -> P.sprintf "BRN L%d" (iz l)
+  | ADD -> "ADD" | SUB -> "SUB" | SVC -> "SVC" | BRB -> "BRB"
+  | LABEL l -> P.sprintf "L%d:" (iz l)
+
 let xcg_main () =
+  let prog = program_of (parse_sx (read_file Sys.argv.(2))) in
+  let fronted = match XConstProp.front prog with XConstProp.COk p -> Some p | _ -> None in
   try while true do
     let line = input_line stdin in
     if SS.trim line <> "" then begin
-      match SS.index_opt line '|' with
-      | None -> print_endline "bad"
-      | Some i ->
-          let amap = SL.map (fun kv -> match SS.split_on_char '=' kv with [k; v] -> (k, int_of_string v) | _ -> failwith "bad map")
-                       (tokens (SS.sub line 0 i)) in
-          let e = expr_of (parse_sx (SS.sub line (i + 1) (SS.length line - i - 1))) in
-          let addr (x : String.string) = match SL.assoc_opt (ocaml_string x) amap with Some a -> Some (zi a) | None -> None in
-          let size = match SL.assoc_opt "size" amap with Some n -> n | None -> 0 in
-          (match XCodegenExpr.cg addr (zi size) (zi 100000) e XCodegenExpr.RA (zi 0) with
+      match fronted, tokens line with
+      | None, _ -> print_endline "front-error"
+      | Some p, pname :: rest ->
+          let kv = SL.map (fun s -> match SS.split_on_char '=' s with [k; v] -> (k, int_of_string v) | _ -> failwith "bad map") rest in
+          let size = match SL.assoc_opt "size" kv with Some n -> n | None -> 0 in
+          let gaddr (x : String.string) = match SL.assoc_opt (ocaml_string x) kv with Some a -> Some (zi a) | None -> None in
+          let pool (v : BinNums.coq_Z) = match SL.assoc_opt (P.sprintf "#%d" (iz v)) kv with Some a -> Some (zi a) | None -> None in
+          (match SL.find_opt (fun q -> ocaml_string q.XAst.pname = pname) p.XAst.procs with
            | None -> print_endline "none"
-           | Some code ->
-               print_endline (SS.concat "; " (SL.map (function
-                 | XCodegenExpr.LDAC v -> P.sprintf "LDAC %d" (iz v) | XCodegenExpr.LDBC v -> P.sprintf "LDBC %d" (iz v)
-                 | XCodegenExpr.LDAM a -> P.sprintf "LDAM %d" (iz a) | XCodegenExpr.LDBM a -> P.sprintf "LDBM %d" (iz a)
-                 | XCodegenExpr.STAI k -> P.sprintf "STAI %d" (iz k) | XCodegenExpr.LDBI k -> P.sprintf "LDBI %d" (iz k)
-                 | XCodegenExpr.ADD -> "ADD" | XCodegenExpr.SUB -> "SUB") code)))
+           | Some q ->
+               let last = match q.XAst.body with
+                 | XAst.SSeq ss when ss <> [] -> SL.nth ss (SL.length ss - 1)
+                 | s -> s in
+               (match last with
+                | XAst.SReturn e ->
+                    let venv = XCodegenExpr.frame_venv gaddr q (zi size) in
+                    (match XCodegenExpr.cg venv pool (zi size) (zi 100000) e XCodegenExpr.RA (zi 0) (XCodegenExpr.first_temp q) with
+                     | Some (code, _) -> print_endline (SS.concat "; " (SL.map instr_str code))
+                     | None -> print_endline "none")
+                | _ -> print_endline "none"))
+      | _, [] -> ()
     end
   done with End_of_file -> ()
 
